@@ -541,7 +541,7 @@ def run_check(ctx, spec, replay):
     rc = 0
     if unlisted:
         v = unlisted[0]
-        if exe and not replay and len(ops_of(v['lines'])) > 6 and spec.get('shrink', True):
+        if exe and not replay and len(ops_of(v['lines'])) > 6 and spec.get('shrink', True) and not os.environ.get('VERIF_NOSHRINK'):
             small = shrink(ctx, exe, v['run'], ops_of(v['lines']), v['sig'])
             log('-- failing case shrunk from %d to %d operation lines' % (len(ops_of(v['lines'])), len(small)))
             v = dict(v)
